@@ -274,6 +274,7 @@ func run(e *ev.Env) {
 		s.totality(c.R)
 	})
 	legacyFamily(e, g)
+	longFamily(e, g)
 	if e.Only == "" && ntSeen.Load() == 0 {
 		e.Inconclusive("no case with two ranges accepting different offers was produced")
 	}
@@ -317,7 +318,6 @@ func (s *sess) poolSeq(r *gen.Rand, n int) {
 
 // format judges Format against the Accepts it is documented to use, observed in the same request.
 func (s *sess) format(r *gen.Rand) {
-	e := s.e
 	h := genHeader(r, kMedia, r.Bool())
 	offers := genOffers(r, kMedia, h, false, false)
 	fm := offerTexts(offers)
@@ -331,6 +331,12 @@ func (s *sess) format(r *gen.Rand) {
 	if present && r.Chance(1, 30) {
 		header = ""
 	}
+	s.formatJudge(header, present, fm, def)
+}
+
+// formatJudge judges one Format execution (handlers fm, default handler at index def or -1).
+func (s *sess) formatJudge(header string, present bool, fm []string, def int) {
+	e := s.e
 	// what Accepts names is observed in a request of its own: a first call may rewrite the header
 	// bytes (parameter names are lower-cased in place), which would perturb Format's own call.
 	types := make([]string, 0, len(fm))
